@@ -95,7 +95,7 @@ pub fn utf8_spec(name: &str, kind: U8Kind, f: U8Fn, isolate: bool) -> Spec {
                 let multi = if buf.iter().any(|&b| b >= 0x80) { "non_ascii" } else { "ascii" };
                 return Some(fail(
                     "utf8_vs_std",
-                    format!("{class}/{multi}/{}", if buf.len() >= 32 { "len>=32" } else if buf.len() >= 8 { "len>=8" } else { "len<8" }),
+                    format!("{class}/{multi}"),
                     format!("{what}: buffer {} -> got {:?}, std says {:?}", zverif::util::brief(buf), got, want),
                 ));
             }
@@ -279,7 +279,7 @@ pub fn wildcard_spec(name: &str, f: WildFn) -> Spec {
                 if got != want {
                     return fail(
                         "wildcard_vs_scalar",
-                        format!("{}/{}/{}", if got { "false_accept" } else { "false_reject" }, if pat.contains(&b'*') { "star" } else { "no_star" }, if n >= 8 && pat.len() >= 4 { "accel_path" } else { "scalar_path" }),
+                        format!("{}/{}", if got { "false_accept" } else { "false_reject" }, if n >= 8 && pat.len() >= 4 { "text>=8,pattern>=4" } else { "short" }),
                         format!("text {:?} pattern {:?}: got {got}, glob definition (= wildcard_match_scalar) says {want}", String::from_utf8_lossy(&text), pat_s),
                     );
                 }
